@@ -765,7 +765,7 @@ func GenObjectStandalone(r *wk.Rand, cfg Cfg) *Shape {
 var pointerFields = map[string]map[string]bool{
 	"P1": {"c": true, "d": true}, "*P1": {"c": true, "d": true}, "P3": {"pinner": true, "n": true},
 	"P4b": {"z": true}, "P7": {"opt": true, "choice": true}, "P2": {"extra": true},
-	"P10": {"a": true, "b": true, "c": true}, "*P10": {"a": true, "b": true, "c": true}, "P11": {"n": true, "m": true}, "P12": {"tag": true}, "P13": {"limit": true}, "P16": {"x": true, "y": true}, "P17": {"x": true, "z": true},
+	"P10": {"a": true, "b": true, "c": true}, "*P10": {"a": true, "b": true, "c": true}, "P11": {"n": true, "m": true}, "P12": {"tag": true}, "P13": {"limit": true}, "P16": {"x": true, "y": true}, "P18": {"next": true}, "P17": {"x": true, "z": true},
 }
 
 // PointerField reports whether the property is mapped to a pointer field of the pool struct.
